@@ -4,6 +4,9 @@ theories/Base/Bytes.vos theories/Base/Bytes.vok theories/Base/Bytes.required_vos
 theories/Base/Res.vo theories/Base/Res.glob theories/Base/Res.v.beautified theories/Base/Res.required_vo: theories/Base/Res.v theories/Base/Bytes.vo
 theories/Base/Res.vio: theories/Base/Res.v theories/Base/Bytes.vio
 theories/Base/Res.vos theories/Base/Res.vok theories/Base/Res.required_vos: theories/Base/Res.v theories/Base/Bytes.vos
+theories/Base/Sig.vo theories/Base/Sig.glob theories/Base/Sig.v.beautified theories/Base/Sig.required_vo: theories/Base/Sig.v theories/Base/Bytes.vo
+theories/Base/Sig.vio: theories/Base/Sig.v theories/Base/Bytes.vio
+theories/Base/Sig.vos theories/Base/Sig.vok theories/Base/Sig.required_vos: theories/Base/Sig.v theories/Base/Bytes.vos
 theories/Base/Winnow.vo theories/Base/Winnow.glob theories/Base/Winnow.v.beautified theories/Base/Winnow.required_vo: theories/Base/Winnow.v theories/Base/Bytes.vo
 theories/Base/Winnow.vio: theories/Base/Winnow.v theories/Base/Bytes.vio
 theories/Base/Winnow.vos theories/Base/Winnow.vok theories/Base/Winnow.required_vos: theories/Base/Winnow.v theories/Base/Bytes.vos
